@@ -335,6 +335,17 @@ def run_property(modname, tier, seed, replay=None):
             extra = set(ax) - ALLOWED_AXIOMS
             if extra:
                 broken.append(('proof-broken', t, 'uses axioms ' + ','.join(sorted(extra))))
+    # thorough tier: the toolchain's independent re-checker replays the compiled proofs of the property's
+    # modules (and everything they import) through the kernel
+    leanchecker = None
+    if ok and tier == 'thorough':
+        try:
+            rc_, out_ = sh(['lake', 'env', 'leanchecker'] + list(mod.LEAN_TARGETS), cwd=LEAN, timeout=1500)
+            leanchecker = {'rc': rc_, 'tail': out_.strip().splitlines()[-3:]}
+            if rc_ != 0:
+                broken.append(('proof-broken', 'leanchecker ' + ' '.join(mod.LEAN_TARGETS), out_[-1200:]))
+        except subprocess.TimeoutExpired:
+            leanchecker = {'rc': None, 'tail': ['timeout (not counted as a failure)']}
     tokens = forbidden_tokens(mod.LEAN_TARGETS, pid)
     for h in tokens:
         broken.append(('proof-broken', 'forbidden-token', h))
@@ -490,7 +501,7 @@ def run_property(modname, tier, seed, replay=None):
             'correspondence_disagreements': len(disagreements),
             'input_distribution': stats, 'samples': samples,
             'broken': [list(b) for b in broken],
-            'model_source_changed': changed, 'escalated_cases': escalated,
+            'model_source_changed': changed, 'escalated_cases': escalated, 'leanchecker': leanchecker,
             'known_findings_hit': sorted(known_hits),
         },
         'assumptions': list(getattr(mod, 'ASSUMPTIONS', [])),
